@@ -17,6 +17,23 @@ Q = 'des_cqueue::stable::CQueue'
 L = 'des_cqueue::stable::linked_list::DualLinkedList'
 
 
+def _sentinel_roles(P):
+    """field name -> 'head' / 'tail': the list field initialised with the Duration::ZERO sentinel is the head, the one with Duration::MAX the tail"""
+    f = P.fns.get(L + '::new')
+    out = {}
+    for _, t in (ret_trees(f) if f else []):
+        t = peel(t)
+        if t[0] == 'agg' and len(t) > 3:
+            for name, v in zip(t[3], t[2]):
+                sv = show(v)
+                if 'EventNode::empty' in sv or 'EventNode' in sv:
+                    if 'Duration::ZERO' in sv:
+                        out[name] = 'head'
+                    elif 'Duration::MAX' in sv:
+                        out[name] = 'tail'
+    return out
+
+
 def r1_stable_insertion(ctx):
     ctx.set_rule('C03.R1')
     f = ctx.anchor(L + '::add')
@@ -89,6 +106,7 @@ def r1_stable_insertion(ctx):
                 side = 'after'
             elif n_is_cur and p_is_cur_prev:
                 side = 'before'
+        start = _sentinel_roles(ctx.P).get(start, start)
         table = (start, link, pred, side)
         ok = table in (('tail', 'prev', 'gt', 'after'), ('head', 'next', 'le', 'before'))
         ctx.check(ok, 'insertion-table',
@@ -190,9 +208,21 @@ def r2_zero_container(ctx, cfg='A', rule='C03.R2'):
         ctx.check(any(ff.dominates(z.b, s.b) for z in ext), 'zero-first:%s' % cfg,
                   'the zero-delay container is consulted before any other container is popped', s.where())
         # and the bucket pop happens only when the zero container had nothing
-        atoms = [a for _, a in ff.guard_atoms(s.b)]
-        none = any(a[0] == 'is' and a[1][0] == 'call' and a[1][1].startswith('std::collections::VecDeque::pop_') and a[2] == 'None' for a in atoms)
-        ctx.check(none, 'bucket-only-if-zero-empty:%s' % cfg, 'a bucket/heap event is taken only if the zero-delay container is empty', s.where(), [show_atom(a) for a in atoms])
+        none = True
+        n_p = 0
+        seen_out = []
+        for path, outcome, decs in fn_paths(ctx, ff):
+            if outcome != 'return' or s.b not in path:
+                continue
+            n_p += 1
+            outs = []
+            for z in ext:
+                outs += [r for site, r in call_outcomes(ff, path, decs, z.name) if site.b == z.b]
+            seen_out.append(outs)
+            # on this path the zero container was popped, and it had nothing
+            if not outs or any(o != 'None' for o in outs):
+                none = False
+        ctx.check(none and n_p >= 1, 'bucket-only-if-zero-empty:%s' % cfg, 'a bucket/heap event is taken only if the zero-delay container is empty', s.where(), {'zero_pop_outcomes_on_bucket_paths': seen_out[:6]})
     # placement table: zero container <=> time == bound, nothing else decides
     paths = fn_paths(ctx, fa)
     bound = None
